@@ -31,14 +31,17 @@ RULE = ("seeded closed breeding histories driven through the real classes: found
         "sizes); plus selection-only chains on haploid/diploid/tetraploid phased matrices.  Every generation the limits are "
         "read through four inputs (phased matrix, unphased matrix from the real genotyping protocol, {0,1,2} ndarray, "
         "correctly rounded frequency vector) scaled and unscaled.  Non-trivial: at least one transition and one segregating "
-        "or non-zero-effect locus; 30 % of the founder matrices are never grouped along the variant axis and store their "
+        "or non-zero-effect locus; half of the effect matrices get a joint architecture (sparse, single QTL, rows cancelling "
+        "exactly across traits, pairs cancelling within a trait, trait-specific markers, zero in some traits only); breeding "
+        "values are read through gebv_numpy / gegv_numpy / predict_numpy / gebv() / gegv() / predict() on phased and array "
+        "inputs; 30 % of the founder matrices are never grouped along the variant axis and store their "
         "chromosomes interleaved with unsorted positions; 3 % of the mating histories (15 % of the chains) contain one "
         "generation of 4097-8200 taxa; cross tables (and select_taxa index arrays, count vectors) are passed in every integer "
         "dtype int8...uint32/int64 that can hold their values, C-/F-ordered, strided or reversed views; 10 % of the mating "
         "histories are 'wide' (100-330 taxa x 100-330 loci, sizes 127/128/255/256/257/330) so that parent index * nvrnt "
         "passes the 8- and 16-bit limits; distinct = digest of founders, effects and the executed operation list.")
 ASSUME = ["the genomic breeding value of an individual is intercept + sum_j genotype_j * u_a[j]; the intercept is whatever "
-          "gebv(...).unscale() adds (checked to be one constant per trait), and usl/lsl with unscale=True are compared with "
+          "gebv() documents: beta[0] + sum(beta[1:])/q, the contrast x* = [1, 1/q, ..., 1/q] (every route is compared with it), and usl/lsl with unscale=True are compared with "
           "those values, usl/lsl with unscale=False with the values without intercept (gebv_numpy)",
           "the population a cross descends from is the set of parents named in its cross table: when mate() is called on a "
           "larger matrix, select_taxa(unique xconfig members) is observed as a generation of its own (85 % of matings) and the "
@@ -105,6 +108,41 @@ def gen_effects(g, m, ntrait):
         else:
             col = g.choice([-1.0, 1.0], m) * 10.0 ** g.uniform(-6, 6, m)
         u[:, k] = col; cls.append(c)
+    # joint architecture across markers and traits (who has an effect on what)
+    r = g.random()
+    arch = "independent columns"
+    if r < 0.5:
+        arch = ["sparse", "sparse", "single QTL", "cancelling across traits", "cancelling across traits, sparse",
+                "trait-specific markers", "cancelling within a trait", "zero in some traits only"][int(g.integers(8))]
+        if arch in ("sparse", "single QTL", "cancelling across traits, sparse"):
+            k = 1 if arch == "single QTL" else int(g.integers(1, max(2, m // 4 + 1)))
+            keep = numpy.zeros(m, bool); keep[g.choice(m, min(k, m), replace=False)] = True
+            u[~keep] = 0.0
+        if arch.startswith("cancelling across traits") and ntrait >= 2:
+            # rows whose entries are non-zero but sum to exactly 0.0 (dyadic values: the cancellation is exact in any order)
+            rows = numpy.flatnonzero(numpy.any(u != 0, axis=1)) if "sparse" in arch else numpy.flatnonzero(g.random(m) < 0.6)
+            if len(rows) == 0:
+                rows = numpy.array([int(g.integers(m))])
+            for j in rows:
+                a = float(g.integers(1, 17)) / 8.0 * float(g.choice([-1.0, 1.0]))
+                if ntrait == 2 or g.random() < 0.5:
+                    t0, t1 = g.choice(ntrait, 2, replace=False)
+                    u[j] = 0.0; u[j, t0] = a; u[j, t1] = -a
+                else:
+                    b = float(g.integers(1, 17)) / 8.0
+                    u[j] = g.permutation(numpy.array([a, b, -(a + b)]))
+        elif arch == "trait-specific markers":
+            own = g.integers(0, ntrait, m)
+            for k in range(ntrait):
+                u[own != k, k] = 0.0
+        elif arch == "cancelling within a trait":   # pairs of markers +a / -a: column sums are exactly 0.0
+            perm = g.permutation(m)
+            for i in range(0, m - 1, 2):
+                a = numpy.round(g.normal(size=ntrait) * 8.0) / 8.0 + 0.125
+                u[perm[i]] = a; u[perm[i + 1]] = -a
+        elif arch == "zero in some traits only":
+            u[g.random((m, ntrait)) < 0.5] = 0.0
+    cls.append(arch)
     return u, cls
 
 
@@ -170,30 +208,54 @@ def read_generation(ctx, mon, model, has_unscale, genotyper, pg, t, op, opsite, 
     # library-reported breeding values
     # The limits promise to bracket the breeding values the model reports for the individuals, so those are judged as
     # reported; when they are not genotype @ effects (+ one constant per trait) the monitor is only told so for the key.
+    # Every public route to a member's breeding value is read (two fixed ones plus one rotating extra per scaling); the
+    # values of all routes are stacked, so each of them has to lie inside the limits.
     gsc, gun, offset, gdev = gref, None, numpy.zeros(gref.shape[1]), {}
     try:
         Z = pg.mat_asformat("{0,1,2}")
-        lib = numpy.asarray(model.gebv_numpy(Z), dtype=float)
-        if lib.shape == gref.shape and numpy.all(numpy.isfinite(lib)):
-            gsc = lib
-            if not numpy.all(numpy.abs(lib - gref) <= u_scale):
-                gdev["sc"] = True; ctx.sumnote("gebv_numpy differs from the integer definition (judged as reported)")
-        else:
-            ctx.sumnote("gebv_numpy unusable (shape / non-finite): oracle values used")
     except Exception as e:
-        ctx.raised("gebv_numpy", e); Z = Zi.astype("int8")
-    try:
-        lib = numpy.asarray(model.gebv(pg).unscale(), dtype=float)
+        ctx.raised("mat_asformat", e); Z = Zi.astype("int8")
+    nq = int(numpy.asarray(model.beta).shape[0])
+    sc_routes = [("gebv_numpy", "gebv_numpy", lambda: model.gebv_numpy(Z))]
+    sc_routes.append([("gegv_numpy", "gegv_numpy", lambda: model.gegv_numpy(Z)),
+                      ("predict_numpy", "predict_numpy(X = 0)", lambda: model.predict_numpy(numpy.zeros((n, nq)), Z)),
+                      ("gebv_numpy", "gebv_numpy(float64 genotypes)", lambda: model.gebv_numpy(Z.astype("float64")))][int(g.integers(3))])
+    got = []
+    for meth, label, fn in sc_routes:
+        try:
+            lib = numpy.asarray(fn(), dtype=float); ctx.hook("breeding-value route: " + label)
+        except Exception as e:
+            ctx.raised(label, e); continue
+        if lib.shape == gref.shape and numpy.all(numpy.isfinite(lib)):
+            got.append(lib)
+            if not numpy.all(numpy.abs(lib - gref) <= u_scale) and "sc" not in gdev:
+                gdev["sc"] = (meth, label); ctx.sumnote("%s differs from the integer definition (judged as reported)" % label)
+        else:
+            ctx.sumnote("%s unusable (shape / non-finite)" % label)
+    if got:
+        gsc = numpy.concatenate(got, axis=0)
+    xstar = numpy.full((n, nq), 1.0 / nq); xstar[:, 0] = 1.0      # the covariate contrast gebv() documents for its location
+    offset = xstar[0] @ numpy.asarray(model.beta, dtype=float)   # intercept by the documented contrast (see ASSUME)
+    un_routes = [("gebv", "gebv(phased).unscale()", lambda: model.gebv(pg).unscale())]
+    un_routes.append([("gebv", "gebv(ndarray).unscale()", lambda: model.gebv(Z).unscale()),
+                      ("gegv", "gegv(phased).unscale()", lambda: model.gegv(pg).unscale()),
+                      ("predict", "predict(contrast, phased).unscale()", lambda: model.predict(xstar, pg).unscale()),
+                      ("predict_numpy", "predict_numpy(contrast)", lambda: model.predict_numpy(xstar, Z))][int(g.integers(4))])
+    got = []
+    for meth, label, fn in un_routes:
+        try:
+            lib = numpy.asarray(fn(), dtype=float); ctx.hook("breeding-value route: " + label)
+        except Exception as e:
+            ctx.raised(label, e); continue
         if lib.shape == gref.shape and numpy.all(numpy.isfinite(lib)):
             d = lib - gref
-            c = numpy.median(d, axis=0)     # the intercept: the constant most individuals agree on
-            gun, offset = lib, c
-            if not numpy.all(numpy.abs(d - c) <= mon.tol(ploidy, c)):
-                gdev["un"] = True; ctx.sumnote("gebv().unscale() is not definition + constant (judged as reported)")
+            got.append(lib)
+            if not numpy.all(numpy.abs(d - offset) <= mon.tol(ploidy, offset)) and "un" not in gdev:
+                gdev["un"] = (meth, label); ctx.sumnote("%s is not definition + constant (judged as reported)" % label)
         else:
-            ctx.sumnote("gebv().unscale() unusable (shape / non-finite): unscaled comparisons skipped")
-    except Exception as e:
-        ctx.raised("gebv().unscale()", e)
+            ctx.sumnote("%s unusable (shape / non-finite)" % label)
+    if got:
+        gun = numpy.concatenate(got, axis=0)
     # input forms
     views = []
     count = mat.astype(numpy.int64).sum((0, 1))
@@ -387,7 +449,7 @@ def case_history(ctx, c, family="hist"):
     wide = (not chain) and g.random() < 0.1   # sizes around the limits of 8- and 16-bit integers (index * nvrnt, n * nvrnt)
     if wide:
         n0 = int(g.choice([100, 127, 128, 130, 200, 256, 257, 330, 330])); m = int(g.choice([100, 113, 127, 128, 129, 200, 255, 256, 257, 330, 330]))
-    ntrait = int(g.integers(1, 4))
+    ntrait = int(g.choice([1, 2, 2, 3, 3]))
     u, ucls = gen_effects(g, m, ntrait)
     mat0 = gen_founder_mat(g, n0, m, ploidy, fcls)
     ungrouped = g.random() < 0.3
